@@ -19,8 +19,9 @@ import EmbitModel.Proofs.SecpCardBridge
   assumed by every theorem of C07 / C08 (and, with `InfUnique` — also proved here — and the bridge of C02Y, of C09 / C10 /
   C02Y) is a THEOREM for the record built from the modelled arithmetic of `embit/util/key.py`. The corollaries below
   restate a few of those theorems at that record, with no curve hypothesis left.
-  What is still not proved in Lean: that the driver's executable record `Crypto.secpOps` (and libsecp256k1) compute the
-  same functions as key.py — that is the correspondence check `ecops.*` of the harness.
+  What is still not proved in Lean: that the fast executable record `Crypto.secpOps` (and libsecp256k1) compute the
+  same functions as key.py — that is the correspondence check `ecops.*` of the harness. (Since Props/C08W the driver no
+  longer evaluates `Crypto.secpOps` but `Crypto.secpLawful`, which is proved isomorphic to the record below.)
 -/
 namespace Embit.Props.C08Z
 open Embit Embit.Model Embit.Model.PyCurve WeierstrassCurve Embit.Props.C08Y
